@@ -13,7 +13,7 @@ for p in /verif/selftest/mutants/*${1:-}*.patch; do
   expect=$(grep -m1 '^# expect:' "$p" | cut -d' ' -f3-)
   git -C "$W/wt" checkout -q -- . ; git -C "$W/wt" clean -fdq
   if ! git -C "$W/wt" apply "$p" 2>/dev/null; then echo "SKIP $(basename $p): patch does not apply"; fail=1; continue; fi
-  out=$(GOCV_REPO="$W/wt" GOCV_OUT="$W/out" /verif/bin/gocv check "$prop" --tier quick 2>&1); rc=$?
+  out=$(GOCV_TIMEOUT=8 GOCV_REPO="$W/wt" GOCV_OUT="$W/out" /verif/bin/gocv check "$prop" --tier quick 2>&1); rc=$?
   if [ $rc -eq 1 ] && echo "$out" | grep -q "^VIOLATION property=$prop" && { [ -z "$expect" ] || echo "$out" | grep -q "$expect"; }; then
     echo "ok   $(basename $p) -> $prop: $(echo "$out" | grep -c '^VIOLATION') violation line(s); first: $(echo "$out" | grep -m1 '^VIOLATION' | sed 's/.*obligation=//' | cut -c1-140)"
   else
